@@ -19,6 +19,7 @@ arguments only, whatever else is alive.  Yielded chunks are also re-read at the 
 import hashlib, io, itertools, json, os, struct, sys, tempfile, wave
 import common
 from common import enc, err_kind
+from props import c18_res
 
 ID = "C18"
 RULE = ("chunks: exhaustive grid (format x byte-order spelling x size 1..9 x length 0..20 x strategy) with "
@@ -283,6 +284,7 @@ def generate(rng, tier, scale=1):
         cut = rng.randint(1, bits // 8 * channels - 1)
         cases.append(wav_case(bits, channels, rng.random() < 0.5, samples, cut=cut))
     cases.extend(generate_conc(rng, tier, scale))
+    cases.extend(generate_res(rng, tier, scale))
     return cases
 
 
@@ -407,12 +409,16 @@ def impl_chunks(c):
 def impl(c):
     if c["entry"] == "conc":
         return impl_conc(c)
+    if c["entry"] == "res":
+        return c18_res.impl_res(c, _tmpdir(), _kind, enc)
     return impl_wav(c) if c["entry"] == "wav" else impl_chunks(c)
 
 
 def request(c):
     if c["entry"] == "conc":
         return {"entry": "conc", "gens": [request(conc_single(c, i)) for i in range(len(c["gens"]))]}
+    if c["entry"] == "res":
+        return request_res(c)
     if c["entry"] == "chunks":
         return {"entry": "chunks", "fmt": c["fmt"], "native": NATIVE, "order": ORDER_REQ[c["order"]],
                 "size": c["size"], "pad": c["pad"], "xs": c["xs"]}
@@ -444,6 +450,8 @@ def compare(c, io_, drv):
     out = []
     if c["entry"] == "conc":
         return compare_conc(c, io_, drv)
+    if c["entry"] == "res":
+        return c18_res.compare_res(c, io_, drv, enc, common.dec)
     if c["entry"] == "chunks":
         if io_.get("aliased"):
             out.append(("spec", "a chunk of chunks.%s changed after it was yielded (the generator reuses the "
@@ -526,6 +534,8 @@ def _s(x, n=160):
 def nontrivial(c, io_):
     if c["entry"] == "conc":
         return len(c["gens"]) >= 2 and any(nontrivial(conc_single(c, i), None) for i in range(len(c["gens"])))
+    if c["entry"] == "res":
+        return bool(c["events"])
     return bool(c["xs"]) if c["entry"] == "chunks" else bool(c["samples"])
 
 
@@ -533,6 +543,8 @@ def tally(eng, c, io_):
     eng.count("entry", c["entry"])
     if c["entry"] == "conc":
         return tally_conc(eng, c, io_)
+    if c["entry"] == "res":
+        return tally_res(eng, c, io_)
     if c["entry"] == "chunks":
         eng.count("chunks.strategy", c["strategy"])
         eng.count("chunks.fmt", c["fmt"])
@@ -574,6 +586,10 @@ def tally(eng, c, io_):
 def shrink(c):
     if c["entry"] == "conc":
         for d in shrink_conc(c):
+            yield d
+        return
+    if c["entry"] == "res":
+        for d in shrink_res(c):
             yield d
         return
     if c["entry"] == "chunks":
@@ -626,6 +642,14 @@ def shrink(c):
 
 
 def neighbours(c):
+    if c["entry"] == "res":
+        for src in c18_res.SOURCES:
+            yield dict(c, source=src)
+        yield dict(c, spy=not c.get("spy", True))
+        n = len(c["samples"])
+        for ev in (["n"] * (n + 1), ["n"] * (n + 2) + ["c"], ["n", "c"], ["c"]):
+            yield dict(c, events=ev)
+        return
     if c["entry"] == "conc":
         for i, g in enumerate(c["gens"]):
             if g["entry"] == "chunks":
@@ -656,6 +680,8 @@ def neighbours(c):
 def classify(c, io_, drv):
     if c["entry"] == "conc":
         return classify_conc(c, io_, drv)
+    if c["entry"] == "res":
+        return classify_res(c, io_, drv)
     if c["entry"] == "chunks":
         if io_.get("aliased"):
             return "chunks.%s:%s:chunk-mutated-after-yield" % (c["strategy"], c["fmt"])
@@ -1447,3 +1473,181 @@ def generate_conc(rng, tier, scale=1):
     for _ in range((1500 if quick else 20000) * scale):
         cases.append(_conc_random(rng))
     return cases
+
+
+# ==============================================================================================
+# res cases: the file life-cycle on real handles (see c18_res.py)
+# ==============================================================================================
+def res_case(bits, channels, keep, samples, source, events, rate=8000, **kw):
+    c = {"entry": "res", "bits": bits, "channels": channels, "keep": keep, "samples": samples, "rate": rate,
+         "source": source, "events": events}
+    c.update({k: v for k, v in kw.items() if v})
+    if "spy" in kw:
+        c["spy"] = bool(kw["spy"])
+    return c
+
+
+def request_res(c):
+    data = c18_res.pcm_bytes(c["bits"], c["samples"])
+    if c.get("cut"):
+        data = data[: max(0, len(data) - c["cut"])]
+    r = {"entry": "res", "bits": c["bits"], "channels": c["channels"], "rate": c["rate"], "keep": c["keep"],
+         "data": list(data), "source": c18_res.MODEL_SRC[c["source"]], "header_ok": not c.get("bad"),
+         "pre": c18_res.n_pre(c), "events": c["events"]}
+    if c.get("riff"):
+        r["file"] = list(c18_res.riff_bytes(c))     # the Lean RIFF parser reads the header and the data chunk itself
+    if r["source"] == "refused":
+        r["alt_source"] = "name"                    # should the code accept this kind of name: then as a name
+    return r
+
+
+RES_PATTERNS = ["exhaust", "exhaust+2", "exhaust+collect", "partial", "partial+collect", "fresh+collect", "nothing",
+                "one", "exhaust+collect+next"]
+
+
+def res_events(pattern, n, rng=None):
+    if pattern == "exhaust":
+        return ["n"] * (n + 1)
+    if pattern == "exhaust+2":
+        return ["n"] * (n + 3)
+    if pattern == "exhaust+collect":
+        return ["n"] * (n + 1) + ["c"]
+    if pattern == "exhaust+collect+next":
+        return ["n"] * (n + 1) + ["c", "n", "c"]
+    if pattern == "partial":
+        return ["n"] * max(0, n - 1)
+    if pattern == "partial+collect":
+        return ["n"] * (n // 2) + ["c"]
+    if pattern == "fresh+collect":
+        return ["c"]
+    if pattern == "one":
+        return ["n"]
+    return []
+
+
+def generate_res(rng, tier, scale=1):
+    quick = tier == "quick"
+    cases = []
+    if scale == 1:
+        t = 0
+        for source in c18_res.SOURCES:
+            for bits in (8, 16, 24, 32):
+                lo, hi = wav_range(bits)
+                for channels in (1, 2):
+                    for keep in (True, False):
+                        for nf in (0, 1, 3):
+                            for pat in RES_PATTERNS:
+                                t += 1
+                                if quick and t % 4 != (bits // 8 + channels) % 4:
+                                    continue
+                                n = nf * channels
+                                samples = [[lo, hi, 1, lo + 1, hi - 1, 2][i % 6] for i in range(n)]
+                                cases.append(res_case(bits, channels, keep, samples, source, res_events(pat, n),
+                                                      spy=t % 3 != 0, others=t % 2,
+                                                      keep_shape=("pos", "kw", "omit", "allkw")[t % 4]))
+        # a constructor that raises, every way of handing the file over
+        for source in c18_res.SOURCES:
+            for bad in c18_res.BADS:
+                for spy in (True, False):
+                    cases.append(res_case(16, 1, True, [1, 2], source, ["n"], bad=bad, spy=spy, others=1))
+        # truncated files: the decoding error in the middle, then more next() calls
+        for source in c18_res.SOURCES:
+            for bits in (8, 16, 24, 32):
+                for channels in (1, 2):
+                    fs = bits // 8 * channels
+                    for cut in sorted({1, fs - 1} - {0}):
+                        if fs == 1:
+                            continue
+                        lo, hi = wav_range(bits)
+                        samples = [hi, lo, 1, 2, 3, 4][: 2 * channels]
+                        for tail in ([], ["n"], ["c"], ["n", "c"]):
+                            cases.append(res_case(bits, channels, (bits + channels) % 3 == 0, samples, source,
+                                                  ["n"] * (len(samples) + 1) + tail, cut=cut, spy=len(tail) != 1))
+    for _ in range((500 if quick else 6000) * scale):
+        bits = rng.choice([8, 16, 24, 32])
+        channels = rng.choice([1, 2])
+        nf = rng.choice([0, 1, 2, rng.randint(0, 10)])
+        n = nf * channels
+        samples = [rand_sample(rng, bits) for _ in range(n)]
+        source = rng.choice(c18_res.SOURCES)
+        kw = {"spy": rng.random() < 0.6, "others": rng.choice([0, 0, 1, 2]),
+              "keep_shape": rng.choice(["pos", "kw", "omit", "allkw"]),
+              "rate": rng.choice([8000, 44100, 1, rng.randint(1, 400000)])}
+        r = rng.random()
+        if r < 0.08:
+            kw["bad"] = rng.choice(c18_res.BADS)
+        elif r < 0.25 and n and bits // 8 * channels > 1:
+            kw["cut"] = rng.randint(1, bits // 8 * channels - 1)
+        elif r < 0.33:
+            channels = rng.choice([3, 4])
+            samples = [rand_sample(rng, bits) for _ in range(nf * channels)]
+            n = len(samples)
+        if source == "pathlike":
+            kw["pathkind"] = rng.choice(["pathlib", "fspath"])
+        if rng.random() < 0.6:
+            ev = res_events(rng.choice(RES_PATTERNS), n)
+        else:
+            ev = [rng.choice("nnnnc") for _ in range(rng.randint(0, n + 4))]
+        cases.append(res_case(bits, channels, rng.random() < 0.5, samples, source, ev, **kw))
+    return cases
+
+
+def tally_res(eng, c, io_):
+    eng.count("res.source", c["source"])
+    eng.count("res.observer", "spy(builtins.open)+/proc/self/fd" if c.get("spy", True) else "/proc/self/fd+ResourceWarning")
+    eng.count("res.bits", c["bits"])
+    eng.count("res.channels", c["channels"])
+    eng.count("res.keep_shape", c.get("keep_shape", "pos") + ("/keep" if c["keep"] else "/norm"))
+    eng.count("res.caller_other_handles", c.get("others", 0))
+    eng.count("res.file", "bad:" + c["bad"] if c.get("bad") else "truncated" if c.get("cut") else
+              "channels>2" if c["channels"] > 2 else "riff-variant" if c.get("riff") else "plain")
+    ev = c["events"]
+    n = len(c["samples"])
+    k = ev.index("c") if "c" in ev else len(ev)
+    eng.count("res.history", ("" if k else "no-next,") + ("k<=n" if k <= n else "k=n+1" if k == n + 1 else "k>n+1") +
+              (",collect" if "c" in ev else "") + (",next-after-collect" if "c" in ev and "n" in ev[ev.index("c"):] else ""))
+    eng.count("res.impl_open", io_.get("open", "?") + ("/" + io_.get("open_err", "") if io_.get("open") == "error" else ""))
+    ends = [s["obs"] for s in io_.get("trace", []) if s["ev"] == "n" and s["obs"] is not None and not isinstance(s["obs"], dict)]
+    eng.count("res.impl_end", "none" if not ends else ends[0])
+    for s in io_.get("trace", []):
+        if "fds_before_gc" in s:
+            eng.count("res.fd_kept_by_cycle_until_gc", bool(s["fds_before_gc"]))
+    if io_.get("trace"):
+        eng.count("res.fds_at_end", io_["trace"][-1]["fds"])
+    eng.count("res.fds_after_open", io_.get("after_open", {}).get("fds", "?"))
+
+
+def shrink_res(c):
+    ev, s, ch = c["events"], c["samples"], c["channels"]
+    if s:
+        yield dict(c, samples=s[:-ch])
+        yield dict(c, samples=[1] * len(s))
+    if ev:
+        yield dict(c, events=ev[:-1])
+        yield dict(c, events=ev[1:])
+        if "c" in ev:
+            yield dict(c, events=[e for e in ev if e != "c"])
+    for k in ("others", "keep_shape", "pathkind", "riff", "rate"):
+        if c.get(k) and not (k == "rate" and c[k] == 8000):
+            d = dict(c)
+            d.pop(k)
+            if k == "rate":
+                d["rate"] = 8000
+            yield d
+    if not c.get("spy", True):
+        yield dict(c, spy=True)
+    if c["channels"] == 2 and len(s) % 2 == 0:
+        yield dict(c, channels=1)
+
+
+def classify_res(c, io_, drv):
+    tag = "res:%s" % c["source"]
+    if io_.get("open") == "error":
+        return tag + ":constructor-" + str(io_.get("open_err"))
+    for kind, d in c18_res.compare_res(c, io_, drv, enc, common.dec):
+        if kind == "spec":
+            return tag + ":" + ("still-open-after-exhaustion" if "still open" in d else
+                                "caller-handle-closed" if "caller" in d else
+                                "resource-warning" if "ResourceWarning" in d else
+                                "header" if "mirror" in d else "values")
+    return tag + ":model-only"
